@@ -92,3 +92,83 @@ CHECKS["C02"] = dict(
     jobs=[dict(cmd="c02", tiers=["quick", "thorough"], timeout=1500),
           dict(cmd="c02", flavour="tsan", tiers=["thorough"], timeout=2400, shards=8, env={"TSAN_OPTIONS": "halt_on_error=1 second_deadlock_stack=1"})],
 )
+
+HYB_ASSUME = [
+    "single sequential client: every operation completes before the next starts, so the most recent completed update of a key is unambiguous",
+    "values are self-validating (key, writer, version, length, PRNG payload, xxh64): the oracle never trusts foyer about what a value is",
+    "buffers are sized so that the documented overload shedding (queue threshold, flush buffer full) cannot occur",
+    "each key keeps one placement advice class for the whole run",
+    "without the tombstone log, a removed key (or a key whose newest version can never be stored) reappearing after a reopen is not judged",
+    "the real psync engine on a real FsDevice directory (tmpfs) sits behind the recording/gating io wrapper (feature `verif`)",
+]
+
+CHECKS["C01"] = dict(
+    title="Hybrid cache never returns a stale or foreign value",
+    level="exploration",
+    rule=("seeded scripted histories built from window gadgets (entry only in the write queue while overwritten/removed; device "
+          "batch N held in flight while batch N+1 is queued; older copy on disk with a newer version that cannot be stored; remove "
+          "while on disk / queued; graceful close+reopen; clear; storage-writer inserts; get_or_fetch with an origin that returns a "
+          "fresh source-of-truth version) over 3..5 keys, both write policies, 5 algorithms with parameter variants, tombstone log "
+          "on/off, compression none/zstd/lz4 (hook), 1..3 flushers, block sizes 16..64 KiB, 4..16 blocks, value sizes 28 B .. "
+          "beyond the per-entry limit, fixed per-key placement advice (default / in-memory / on-disk). Oracle after every lookup: "
+          "miss, or bit-exact value whose embedded key is the requested key and whose (writer, version) is the most recent "
+          "completed insert not followed by remove/clear. Non-trivial = the script had a disk hit or a lookup while a gate was "
+          "held; distinct = hash of (configuration, script)."),
+    assumptions=HYB_ASSUME,
+    min_nontrivial=20,
+    jobs=[dict(cmd="c01", tiers=["quick", "thorough"], timeout=2400)],
+)
+
+FETCH_ASSUME = [
+    "two current-thread runtimes (callers / fetch tasks) are stepped by the harness: scripts are deterministic and 'pending although idle' is decided on logical steps, not wall-clock",
+    "lookup ('disk') and origin futures are harness-owned gates driven through the public get_or_fetch_inner entry point the hybrid cache itself uses",
+    "expected caller outcomes come from a sequential model of the documented coalescing protocol (harness/src/fetchseq.rs)",
+]
+
+CHECKS["C06"] = dict(
+    title="Concurrent fetches of one key are coalesced and every caller is answered",
+    level="exploration",
+    rule=("ALL scripts of length 5 (quick) / 6 (thorough) over the 11 actions {caller arrives: lookup-only | lookup+origin | origin-only; "
+          "lookup resolves hit | miss | error; origin resolves ok | error; insert; remove; drop oldest pending caller} on one key for "
+          "the three lock modes of the lookup path (FIFO, SIEVE, LRU), every 7th additionally ending with the fetch runtime being "
+          "shut down, plus seeded random scripts of 6..19 actions over two keys and all five algorithms. After every action both "
+          "runtimes are run until idle and every caller's outcome (pending / entry id / none / origin error / lookup error / "
+          "cancelled) is compared with the protocol model; at the end every gate is released: a caller still pending is a hang; "
+          "origin fetches in flight at once per key <= 1 (without insert/remove), executed origin fetches == model, final cache "
+          "content == model. Non-trivial = a caller joined a fetch already in flight; distinct = hash(algorithm, script)."),
+    exhaustive_part="all scripts of the stated length over the stated action alphabet",
+    assumptions=FETCH_ASSUME,
+    min_nontrivial=50,
+    jobs=[dict(cmd="fetchseq", args={"prop": "C06"}, tiers=["quick", "thorough"], timeout=1800)],
+)
+
+CHECKS["C11"] = dict(
+    title="An explicit insert is not overwritten by an older in-flight fetch",
+    level="exploration",
+    rule=("same engine as C06 restricted to scripts that contain an insert: ALL scripts of length 5 (quick) / 6 (thorough) over 9 "
+          "actions (arrivals, lookup hit/miss, origin ok/error, insert, remove) plus random longer ones; after an insert took over "
+          "a pending fetch, the superseded lookup/origin futures are resolved with poison values. Oracle: every waiter of the "
+          "superseded fetch receives the inserted entry; poison values never reach a caller; at the end a lookup finds exactly "
+          "what the protocol model says is cached (late-overwrite detection). Non-trivial = an insert happened while a fetch of "
+          "the key was pending; distinct = hash(algorithm, script)."),
+    exhaustive_part="all scripts of the stated length that contain an insert",
+    assumptions=FETCH_ASSUME,
+    min_nontrivial=50,
+    jobs=[dict(cmd="fetchseq", args={"prop": "C11"}, tiers=["quick", "thorough"], timeout=1800)],
+)
+
+CHECKS["C16"] = dict(
+    title="User callbacks run outside cache locks, so re-entrant use cannot deadlock",
+    level="exploration",
+    rule=("seeded sequences of 6..35 operations (insert, get, remove, touch, drop handle, clear, evict_all, resize, get_or_fetch ok/"
+          "error, insert-while-fetch-pending) on a single-shard cache (every key has hash 0) whose event listener, weighter, "
+          "filter, key destructor and value destructor each call back into the same cache (lookup / insert / remove / touch / "
+          "contains, per-sequence plan, depth <= 2), five algorithms. Oracle: parking_lot's deadlock detector (logical cycle "
+          "detection, polled every 25 ms) - any reported cycle is a violation with thread backtraces; 120 s without progress and "
+          "without a report is inconclusive. Non-trivial = at least one re-entrant call from a callback completed; distinct = "
+          "hash of the case."),
+    assumptions=["std::sync locks (block manager) are outside parking_lot's detector: only the no-progress watchdog (inconclusive) covers them",
+                 "the harness is built with foyer's `deadlock` feature"],
+    min_nontrivial=50,
+    jobs=[dict(cmd="c16", tiers=["quick", "thorough"], timeout=1800)],
+)
